@@ -8,6 +8,12 @@ pub fn id(_attr: TokenStream, item: TokenStream) -> TokenStream {
     item
 }
 
+/// Identity attribute whose last path segment is `automock` (entrait classifies attributes by that name).
+#[proc_macro_attribute]
+pub fn automock(_attr: TokenStream, item: TokenStream) -> TokenStream {
+    item
+}
+
 /// Identity attribute that logs `<attr>\t<name of the fn it sees>` to $VERIF_HELPER_LOG.
 #[proc_macro_attribute]
 pub fn count(attr: TokenStream, item: TokenStream) -> TokenStream {
